@@ -658,6 +658,9 @@ def c10(run):
 
 @check("C11")
 def c11(run):
+    ospath, _ = run.emit("os", ["emit", "os"])
+    run.mc_leg("mc_ostraps", "MC_OsTraps", "MC_OsTraps3.cfg" if run.tier == "thorough" else "MC_OsTraps.cfg",
+               env={"OSIMG": ospath}, workers=8, timeout=3000)
     run.trace_leg("traps", ["machine", "kind=traps"],
                   verdict=["trap-return-pc", "trap-psr", "trap-user-memory", "trap-ssp", "trap-getc", "trap-out", "trap-puts",
                            "trap-putsp", "trap-in", "trap-halt", "panic"])
@@ -1176,7 +1179,10 @@ def replay(pid, path):
         log("current tree: all %d records accepted" % n)
         return 0
     elif rp["kind"] == "mc":
-        r = run.mc_leg(rp["leg"], rp["spec"], rp["cfg"], env=rp.get("env"))
+        env = rp.get("env") or {}
+        if "OSIMG" in env:      # the OS image is exported afresh from the current tree
+            env["OSIMG"], _ = run.emit("os", ["emit", "os"])
+        r = run.mc_leg(rp["leg"], rp["spec"], rp["cfg"], env=env)
         if r.violations:
             log("VIOLATION property=%s replay=%s" % (pid, path))
             return 1
